@@ -300,11 +300,19 @@ Proof.
   apply Forall_app. split; [exact Hst|constructor; [exact Hi|constructor]].
 Qed.
 
+Lemma upd_abs_same : forall st i h h', nth_error st i = Some h -> abs h' = abs h ->
+  List.map abs (upd i h' st) = List.map abs st.
+Proof.
+  induction st as [|x st IH]; intros [|i] h h' E Ha; simpl in *; try discriminate.
+  - inversion E; subst. rewrite Ha. reflexivity.
+  - rewrite (IH i h h' E Ha). reflexivity.
+Qed.
+
 Theorem run_cmd_refines : forall c st, Forall inv st ->
   s_run_cmd c (List.map abs st) = (fst (run_cmd c st), List.map abs (snd (run_cmd c st))) /\
   Forall inv (snd (run_cmd c st)).
 Proof.
-  intros c st Hst. destruct c as [i o|i|t|i]; simpl.
+  intros c st Hst. destruct c as [i o|i|t|i|l|i j]; simpl.
   - rewrite nth_error_map_abs. destruct (nth_error st i) as [h|] eqn:E; simpl; [|split; [reflexivity|exact Hst]].
     pose proof (Forall_nth_error _ _ _ _ Hst E) as Hi.
     destruct (step_refines o h Hi) as [H1 H2]. rewrite H1. destruct (step o h) as [r h']. simpl in *.
@@ -330,6 +338,26 @@ Proof.
     change (abs empty_h) with empty_s in H1.
     destruct (parse_lines (split_lines (to_string h)) empty_h) as [r h']. cbn [fst snd] in H1, H2. rewrite H1.
     apply new_obj_refines with (s' := abs h'); auto.
+  - (* FromPairs *) destruct (update_all_refines l empty_h inv_empty) as [E1 E2].
+    change (abs empty_h) with empty_s in E1.
+    rewrite map_app, <- E1. simpl. split; [reflexivity|].
+    apply Forall_app. split; [exact Hst|constructor; [exact E2|constructor]].
+  - (* Eq *) rewrite !nth_error_map_abs.
+    destruct (nth_error st i) as [hi|] eqn:Ei; simpl; [|split; [reflexivity|exact Hst]].
+    destruct (nth_error st j) as [hj|] eqn:Ej; simpl; [|split; [reflexivity|exact Hst]].
+    pose proof (Forall_nth_error _ _ _ _ Hst Ei) as Hi. pose proof (Forall_nth_error _ _ _ _ Hst Ej) as Hj.
+    destruct (items_refines hi Hi) as [hi' [I1 [I2 I3]]]. rewrite I1.
+    pose proof (upd_abs_same st i hi hi' Ei I2) as M1.
+    assert (F1 : Forall inv (upd i hi' st)) by (apply upd_Forall; assumption).
+    assert (Ej1 : exists hj1, nth_error (upd i hi' st) j = Some hj1 /\ abs hj1 = abs hj).
+    { pose proof (nth_error_map_abs (upd i hi' st) j) as N. rewrite M1, nth_error_map_abs, Ej in N. simpl in N.
+      destruct (nth_error (upd i hi' st) j) as [hj1|]; simpl in N; [|discriminate].
+      exists hj1. split; [reflexivity|]. congruence. }
+    destruct Ej1 as [hj1 [Ej1 Aj]]. rewrite Ej1.
+    pose proof (Forall_nth_error _ _ _ _ F1 Ej1) as Hj1.
+    destruct (items_refines hj1 Hj1) as [hj' [J1 [J2 J3]]]. rewrite J1. simpl.
+    rewrite (upd_abs_same _ j hj1 hj' Ej1 J2), M1, Aj. split; [reflexivity|].
+    apply upd_Forall; assumption.
 Qed.
 
 Theorem run_cmds_refines : forall cs st, Forall inv st ->
